@@ -124,10 +124,30 @@ impl Rendezvous {
     }
 }
 
-const SYNC_SOURCES: [&str; 4] = ["sync(1) + len(\"ab\")", "f(sync(2))", "sync(a) == a", "str::from(sync(2.5))"];
+/// Rendezvous programs: small ones, one nested DEEP_SYNC levels deep (the rendezvous happens at the
+/// innermost point, so every thread is that deep inside the evaluator at the same instant) and
+/// one WIDE_SYNC elements wide (every thread has a large evaluation in flight at the same time).
+const DEEP_SYNC: usize = 2500;
+const WIDE_SYNC: usize = 60_000;
+
+fn sync_sources(heavy: bool) -> Vec<String> {
+    let mut v: Vec<String> =
+        ["sync(1) + len(\"ab\")", "f(sync(2))", "sync(a) == a", "str::from(sync(2.5))"].iter().map(|s| s.to_string()).collect();
+    if !heavy {
+        return v;
+    }
+    v.push(format!("{}sync(3){}", "(".repeat(DEEP_SYNC), ")".repeat(DEEP_SYNC)));
+    v.push(format!("1 + {}sync(4){}", "-(".repeat(DEEP_SYNC / 2), ")".repeat(DEEP_SYNC / 2)));
+    let mut wide = String::from("sync(5)");
+    for i in 0..WIDE_SYNC {
+        wide.push_str(if i % 2 == 0 { ", 1" } else { ", a" });
+    }
+    v.push(format!("len(({}))", wide));
+    v
+}
 
 /// All `threads` threads evaluate the same function-calling programs at the same instant.
-fn check_rendezvous(rep: &Report, batch_ctx: &Ctx, threads: usize, rounds: usize, l: &mut Local) {
+fn check_rendezvous(rep: &Report, batch_ctx: &Ctx, threads: usize, rounds: usize, heavy: bool, l: &mut Local) {
     use evalexpr::ContextWithMutableFunctions;
     let rv = Arc::new(Rendezvous { arrivals: std::sync::Mutex::new(0), cv: std::sync::Condvar::new(), parties: AtomicU64::new(1), timeouts: AtomicU64::new(0) });
     let mut ctx: HCtx = build_hashmap_nolog(batch_ctx);
@@ -142,17 +162,18 @@ fn check_rendezvous(rep: &Report, batch_ctx: &Ctx, threads: usize, rounds: usize
         )
         .expect("set_function");
     }
-    let trees: Vec<Tree> = SYNC_SOURCES.iter().map(|s| evalexpr::build_operator_tree::<DefaultNumericTypes>(s).expect("sync source builds")).collect();
-    // sequential reference (one party: no waiting)
-    let seq: Vec<Res> = trees.iter().map(|t| t.eval_with_context(&ctx).map(|v| to_rv(&v))).collect();
+    let sources = sync_sources(heavy);
+    let trees: Vec<Tree> = sources.iter().map(|s| evalexpr::build_operator_tree::<DefaultNumericTypes>(s).expect("sync source builds")).collect();
+    // sequential reference (one party: no waiting), on a big stack because of the deep program
+    let seq: Vec<Res> = vcore::on_big_stack(|| trees.iter().map(|t| t.eval_with_context(&ctx).map(|v| to_rv(&v))).collect());
     *rv.arrivals.lock().unwrap() = 0;
     rv.parties.store(threads as u64, Ordering::SeqCst);
     let barrier = Barrier::new(threads);
     let evals = AtomicU64::new(0);
     std::thread::scope(|s| {
         for _ in 0..threads {
-            let (trees, ctx, seq, barrier, evals) = (&trees, &ctx, &seq, &barrier, &evals);
-            s.spawn(move || {
+            let (trees, ctx, seq, barrier, evals, sources) = (&trees, &ctx, &seq, &barrier, &evals, &sources);
+            std::thread::Builder::new().stack_size(64 << 20).spawn_scoped(s, move || {
                 for _ in 0..rounds {
                     for (j, t) in trees.iter().enumerate() {
                         barrier.wait();
@@ -162,7 +183,7 @@ fn check_rendezvous(rep: &Report, batch_ctx: &Ctx, threads: usize, rounds: usize
                             rep.fail(
                                 "rendezvous",
                                 "C15/concurrent result differs from the sequential result (all threads inside a user function at once)",
-                                json!({"kind": "rendezvous", "src": SYNC_SOURCES[j], "ctx": common::ctx_to_json(batch_ctx), "threads": threads}),
+                                json!({"kind": "rendezvous", "src": vcore::clip(&sources[j], 80), "source_index": j, "ctx": common::ctx_to_json(batch_ctx), "threads": threads}),
                                 res_text(&seq[j]),
                                 res_text(&r),
                                 threads,
@@ -170,14 +191,14 @@ fn check_rendezvous(rep: &Report, batch_ctx: &Ctx, threads: usize, rounds: usize
                         }
                     }
                 }
-            });
+            }).expect("spawn");
         }
     });
     l.evaluations += evals.load(Ordering::Relaxed);
     l.label_n("rendezvous timeouts (not failures)", rv.timeouts.load(Ordering::Relaxed));
     l.label("rendezvous batch");
-    for s in SYNC_SOURCES {
-        l.nontrivial_key(&format!("rv{}\u{1}{}\u{1}{}", threads, s, batch_ctx.describe()));
+    for s in &sources {
+        l.nontrivial_key(&format!("rv{}\u{1}{}\u{1}{}", threads, vcore::clip(s, 60), batch_ctx.describe()));
     }
 }
 
@@ -357,7 +378,7 @@ fn run(rep: &Report) {
          barrier with staggered offsets (scoped borrows and Arc), results / cloned trees / operators moved back \
          through a channel; the first evaluation of freshly built trees happens concurrently (the oracle's results come \
          from other instances); one batch calls all 49 builtins through one shared context; plus a rendezvous phase in which a harness-owned user function holds 16 / 48 / 64 threads \
-         inside a function call at the same instant (the one point where the harness owns the schedule); oracle: the \
+         inside a function call at the same instant (the one point where the harness owns the schedule), also at the innermost point of a 2500-deep expression and inside a 60,000-element tuple; oracle: the \
          sequential result computed beforehand, bit-exact. Non-trivial: distinct \
          (program, context) that reads a shared variable or calls a shared function, run on >= 4 threads.",
     );
@@ -387,7 +408,7 @@ fn run(rep: &Report) {
         }
         // maximal overlap: every thread inside a user-function call at the same instant
         for threads in [16usize, 48, 64] {
-            check_rendezvous(rep, &batch.ctx, threads, rep.tier.pick(2, 10), &mut l);
+            check_rendezvous(rep, &batch.ctx, threads, rep.tier.pick(2, 10), b < rep.tier.pick(3, 60), &mut l);
         }
     }
     // every builtin name through one shared context
@@ -408,7 +429,7 @@ fn replay(case: &J, rep: &Report) {
     if case["kind"].as_str() == Some("rendezvous") {
         let mut l = Local::default();
         for _ in 0..5 {
-            check_rendezvous(rep, &ctx, 64, 5, &mut l);
+            check_rendezvous(rep, &ctx, 64, 5, true, &mut l);
         }
         rep.merge(l);
         return;
